@@ -111,6 +111,7 @@ def run(ctx):
     eng = ctx.eng
     ctx.assume("A1", "A2", "A3", "A5", "A6", "A8")
     m = VSModel(eng)
+    m.require_sigmap_loop()
     fn_site = eng.prog.site(m.sm.fi.mod, m.sm.fi.node, m.sm.fi.qualname)
 
     # ---- R1: nothing leaves a loop iteration
@@ -156,6 +157,22 @@ def run(ctx):
         elif out not in ("skip", "count", "count+return", "return"):
             s = fn_site
             ctx.ob("R2", "loop-exit|%s" % out, s.loc(), "a loop-body path leaves the loop by '%s': entries after this one are never examined" % out, False)
+    # the predicates that decide H / Pg / Ps must decide exactly those grammars: a stricter one
+    # would skip well-formed entries (a looser one is C01's concern)
+    from .c15 import predicate_exact
+
+    role_kind = {"H": ("hex", 64), "Pg": ("gpg", None), "Ps": ("raw|gpg", None)}
+    preds = {}
+    for bp in m.body:
+        for f in bp.facts:
+            if f[0] == "ret":
+                r = role_of_call(eng, f[1], m)
+                if r in role_kind:
+                    preds[f[1][1][5:].split("[")[0]] = r
+    for q, r in sorted(preds.items()):
+        okp, why = predicate_exact(eng, q, *role_kind[r])
+        ctx.count("R2.role_predicates")
+        ctx.ob("R2", "predicate-exact|%s" % q, fn_site.loc(), "%s, which decides atom %s in the per-entry loop, %s" % (q, r, "is True exactly on the %s grammar" % role_kind[r][0] if okp else "does not decide exactly the %s grammar: %s" % (role_kind[r][0], why)), okp)
     rows = bad_rows = 0
     for vals in itertools.product([False, True], repeat=len(ATOMS)):
         v = dict(zip(ATOMS, vals))
